@@ -51,10 +51,10 @@ PROP = dict(
     ],
     units=[
         E("ulps", "A", "./c10", "TestC10Ulps", 8, 16),
-        R("scale", "A", "./c10", "TestC10Scale", (200000, 8), (3000000, 16)),
-        R("common", "A", "./c10", "TestC10Common", (60000, 4), (600000, 16)),
+        R("scale", "A", "./c10", "TestC10Scale", (150000, 8), (2000000, 16)),
+        R("common", "A", "./c10", "TestC10Common", (50000, 4), (500000, 16)),
         R("classof", "A", "./c10", "TestC10ClassOf", (100000, 2), (400000, 16)),
-        R("noop", "A", "./c10", "TestC10NoOp", (100000, 2), (400000, 16)),
+        R("noop", "A", "./c10", "TestC10NoOp", (80000, 2), (400000, 16)),
         F("fuzz", "./c10", "FuzzC10", 60),
     ],
 )
